@@ -211,6 +211,48 @@ def judge_file_item(name: str, fmt: str, res: Dict[str, Any]) -> None:
         res['outcomes'].add(('file', name, r.status))
 
 
+# projects whose ROOTS are the point: top-level modules, several roots, roots named like the pages pydoctor generates itself
+PAGE_NAMES = ['index', 'nameIndex', 'classIndex', 'moduleIndex', 'undoccedSummary', 'all-documents', 'searchindex', 'fullsearchindex', 'objects', 'apidocs', 'pydoctor', 'bootstrap.min']
+ROOTP: Dict[str, Tuple[Dict[str, str], List[str]]] = {
+    'toplevel-module-reexport': ({'a.py': 'import b\n', 'b.py': 'x = 1\ndef f(): "d"\n', 'c.py': 'from a import b\n__all__ = ["b"]\n'}, ['a.py', 'b.py', 'c.py']),
+    'toplevel-module-reexport-by-package': ({'b.py': 'class B:\n    "d"\n', 'pk/__init__.py': 'import b\nfrom b import B\n__all__ = ["b", "B"]\n'}, ['b.py', 'pk']),
+    'submodule-reexport-by-toplevel': ({'pk/__init__.py': '', 'pk/m.py': 'def f(): "d"\n', 't.py': 'from pk import m\nimport pk\n__all__ = ["m", "pk"]\n'}, ['pk', 't.py']),
+    'module-and-package-roots-same-name': ({'m.py': 'x = 1\n', 'pk/__init__.py': '', 'pk/m.py': 'y = 1\n'}, ['m.py', 'pk']),
+    'root-imports-each-other': ({'a.py': 'from b import *\nclass A(B): pass\n', 'b.py': 'from a import *\nclass B: pass\n'}, ['a.py', 'b.py']),
+}
+for _n in PAGE_NAMES:
+    ROOTP[f'root-module-named:{_n}'] = ({f'{_n}.py': '"""Doc."""\nclass K:\n    "d"\ndef f(): "d"\n'}, [f'{_n}.py'])
+    ROOTP[f'root-module-named:{_n}+package'] = ({f'{_n}.py': '"""Doc."""\nclass K:\n    "d"\n', 'pk/__init__.py': f'"""P."""\n', f'pk/{_n}.py': 'def g(): "d"\n'}, [f'{_n}.py', 'pk'])
+    ROOTP[f'root-package-named:{_n}'] = ({f'{_n}/__init__.py': '"""Doc."""\nclass K:\n    "d"\n', f'{_n}/sub.py': 'def f(): "d"\n'}, [_n])
+
+
+def judge_roots(name: str, fmt: str, res: Dict[str, Any]) -> None:
+    files, roots = ROOTP[name]
+    res['evals'] += 1
+    res['nontrivial'].add(core.h('roots', name, fmt))
+    case = {'kind': 'roots', 'item': name, 'fmt': fmt}
+    group = name.split(':')[0] + (':' + name.split(':')[1].split('+')[0] if ':' in name else '')
+    try:
+        with core.time_limit(RUN_TIMEOUT), core.cpu_limit(CPU_BASE + CPU_PER_MODULE * len(files)):
+            with pd.cli_run(files, ['--docformat', fmt], roots=roots) as r:
+                core.bump(res, 'driver_runs')
+                if r.exc:
+                    res['violations'].append(core.violation(f'aborts/{r.exc_type}@{r.exc_site}/roots:{group}', f'[roots project {name}, {fmt}] the run aborts: {r.exc_type}\n{(r.exc or "")[-500:]}', case))
+                    return
+                if r.status not in (0, 2, 3):
+                    res['violations'].append(core.violation(f'aborts/status-{r.status}/roots:{group}', f'[roots project {name}] exit status {r.status}', case))
+                    return
+                for c, d in check_outputs(r, []):
+                    res['violations'].append(core.violation(f'{c}/roots:{group}', f'[roots project {name}, {fmt}] {c} {d}', case))
+                # every root has its page, and a page is the page of ONE object
+                for rt in roots:
+                    page = (rt[:-3] if rt.endswith('.py') else rt) + '.html'
+                    if not (r.out / page).exists():
+                        res['violations'].append(core.violation(f'root-page-missing/roots:{group}', f'[roots project {name}] no page {page} for root {rt}', case))
+    except core.JobTimeout:
+        res['violations'].append(core.violation(f'aborts/hang/roots:{group}', f'[roots project {name}] hang', case))
+
+
 def judge_multi(name: str, fmt: str, order_rev: bool, res: Dict[str, Any]) -> None:
     files = dict(MULTI[name])
     res['evals'] += 1
@@ -241,6 +283,9 @@ def jobs(tier: str) -> Iterable[Tuple[str, Any]]:
     for i in range(0, len(names), 6):
         yield ('file-items', ('files', names[i:i + 6]))
     yield ('multi-file', ('multi',))
+    rn = list(ROOTP)
+    for i in range(0, len(rn), 6):
+        yield ('root-projects', ('roots', rn[i:i + 6]))
     if tier == 'thorough':
         for fmt in ('epytext', 'restructuredtext', 'google'):
             for pl in ('module', 'class'):
@@ -281,6 +326,10 @@ def run_job(job: Any, tier: str) -> Dict[str, Any]:
         for name in job[1]:
             for fmt in ('epytext', 'restructuredtext'):
                 judge_file_item(name, fmt, res)
+    elif job[0] == 'roots':
+        for name in job[1]:
+            for fmt in ('epytext', 'restructuredtext'):
+                judge_roots(name, fmt, res)
     else:
         for name in MULTI:
             for fmt in ('epytext', 'restructuredtext', 'google'):
@@ -294,6 +343,8 @@ def replay(case: Dict[str, Any]) -> List[Dict[str, Any]]:
         explore([(case['label'], case['place'], case['src'])], case['fmt'], res)
     elif case['kind'] == 'file':
         judge_file_item(case['item'], case['fmt'], res)
+    elif case['kind'] == 'roots':
+        judge_roots(case['item'], case['fmt'], res)
     else:
         judge_multi(case['item'], case['fmt'], False, res)
     return res['violations']
